@@ -6,6 +6,7 @@ import (
 	"os"
 	"path/filepath"
 	"runtime"
+	"strings"
 	"sync"
 	"sync/atomic"
 	"testing"
@@ -83,16 +84,8 @@ func checkC14(c c14Case, rec *Rec) *Violation {
 	c14HookMu.Lock()
 	defer c14HookMu.Unlock()
 	setYieldHooks(nil)
-	seq, err := newEngSet(stringBacked(c.Lists))
-	if err != nil {
-		return viol(id, "C14:harness", "storage: %v", err)
-	}
-	want := make([]string, len(c.Queries))
-	for i, q := range c.Queries {
-		want[i], _ = seq.answer(q)
-	}
-	seq.cleanup()
-
+	// the concurrent phase runs FIRST, on rule texts this process may never have
+	// seen; the sequential reference (a separate, fresh engine) is computed afterwards
 	en, err := newEngSet(c.Lists)
 	if err != nil {
 		return viol(id, "C14:harness", "storage: %v", err)
@@ -154,6 +147,15 @@ func checkC14(c c14Case, rec *Rec) *Violation {
 	if file {
 		rec.Label("file-backed-case")
 	}
+	seq, err := newEngSet(stringBacked(c.Lists))
+	if err != nil {
+		return viol(id, "C14:harness", "storage: %v", err)
+	}
+	want := make([]string, len(c.Queries))
+	for i, q := range c.Queries {
+		want[i], _ = seq.answer(q)
+	}
+	seq.cleanup()
 	for i := range c.Queries {
 		if got[i] != want[i] {
 			return viol(id, "C14:concurrent-answer-differs", "query %d %+v with %d goroutines (cold cache=%v):\n concurrent %s\n sequential %s", i, c.Queries[i], G, !c.Warm, clipStr(got[i]), clipStr(want[i]))
@@ -180,6 +182,15 @@ func genC14(t *rapid.T) c14Case {
 	lists, models := genMixedLists(t, 2)
 	c := c14Case{Lists: lists, Goroutines: rapid.IntRange(2, 32).Draw(t, "goroutines"),
 		YieldSeed: rapid.Uint64().Draw(t, "yield-seed"), Warm: chance(t, "warm", 4)}
+	// URLs for the regex rules with fresh texts
+	var freshURLs []string
+	for _, l := range lists {
+		for _, ln := range strings.Split(l.Text, "\n") {
+			if strings.HasPrefix(ln, "/uniq") && strings.HasSuffix(ln, "[0-9]/") {
+				freshURLs = append(freshURLs, "http://x.com/"+strings.TrimSuffix(strings.TrimPrefix(ln, "/"), "[0-9]/")+"7")
+			}
+		}
+	}
 	n := rapid.IntRange(50, scale(200, 400)).Draw(t, "nqueries")
 	for len(c.Queries) < n {
 		if len(c.Queries) > 0 && chance(t, "dup", 2) {
@@ -187,12 +198,15 @@ func genC14(t *rapid.T) c14Case {
 			continue
 		}
 		q := genQNear(t, models[rapid.IntRange(0, len(models)-1).Draw(t, "for")])
-		if chance(t, "fixed", 2) {
+		if len(freshURLs) > 0 && chance(t, "fresh-regex-url", 4) {
+			q = Q{URL: pick(t, "fresh-url", freshURLs), Typ: "script"}
+		} else if chance(t, "fixed", 2) {
 			if q.Host {
 				q.Hostname = pick(t, "fh", []string{"example.org", "a.com", hostColliders[0][0]})
 			} else {
 				// URLs in which a rule's window occurs several times
-				q.URL = pick(t, "fu", append([]string{"http://x.com/adsa6/adsgp", "http://x.com/adsa6/banner_ad", "http://x.com/adsa6?adsgp=/banner_ad"}, c01FixedURLs...))
+				q.URL = pick(t, "fu", append([]string{"http://x.com/adsa6/adsgp", "http://x.com/adsa6/banner_ad", "http://x.com/adsa6?adsgp=/banner_ad",
+					"http://x.com/bannerx1", "http://x.com/adsgpq2", "http://x.com/trackerzz", "http://x.com/pixelwab", "http://x.com/counterv77"}, c01FixedURLs...))
 			}
 		}
 		c.Queries = append(c.Queries, q)
